@@ -111,6 +111,21 @@ VERUS = [dict(
         // sound hull: nothing of either interval is lost; and not wider than needed (each endpoint is an endpoint of an operand)
         forall|x: int| (#[trigger] contains(*self, x) || contains(*other, x)) ==> contains(r->Ok_0, x),
         (r->Ok_0.lower == self.lower || r->Ok_0.lower == other.lower) && (r->Ok_0.upper == self.upper || r->Ok_0.upper == other.upper),"""),
+        dict(file=FI, path=["fn satisfy_greater"], ret="r",
+             edits=[dict(rule="R9", regex=r"assert_eq_or_internal_err!\(\s*lhs_type\.clone\(\),\s*rhs_type\.clone\(\),(?:[^()]|\([^()]*\))*\);", replace="if lhs_type != rhs_type { return make_err(); }", count=1),
+                    dict(rule="R3", regex=r"\.clone\(\)", replace="", count="any"),
+                    dict(rule="R13", regex=r"left\.upper <= right\.lower", replace="sv_le(left.upper, right.lower)", count="any"),
+                    dict(rule="R13", regex=r"left\.lower <= right\.lower", replace="sv_le(left.lower, right.lower)", count="any"),
+                    dict(rule="R13", regex=r"left\.upper <= right\.upper", replace="sv_le(left.upper, right.upper)", count="any"),
+                    dict(rule="R13", regex=r"Interval::new\(", replace="interval_new(", count="any")],
+             contract="""    requires num_iv(*left), num_iv(*right),
+    ensures r is Ok,
+        // constraint propagation never removes a value that belongs to a satisfying assignment:
+        // infeasible only if no pair of values satisfies the constraint ...
+        r->Ok_0 is None ==> forall|a: int, b: int| #[trigger] pair_in(*left, *right, a, b) && in_i64(a) && in_i64(b) ==> !sat_gt(a, b, strict),
+        // ... and otherwise every satisfying pair survives in the shrunk intervals, which only shrink
+        r->Ok_0 is Some ==> forall|a: int, b: int| #[trigger] pair_in(*left, *right, a, b) && in_i64(a) && in_i64(b) && sat_gt(a, b, strict)
+                                ==> contains(r->Ok_0->Some_0.0, a) && contains(r->Ok_0->Some_0.1, b),"""),
         dict(file=FI, path=[II, "fn and"], wrap=II, ret="r", edits=_GEN,
              contract="""    requires bool_iv(*self), bool_iv(*other),
     ensures r is Ok, bool_iv(r->Ok_0), exact2(|a: int, b: int| and3(a, b), iv_mask(*self), iv_mask(*other), iv_mask(r->Ok_0)),"""),
@@ -189,13 +204,17 @@ VERUS = [dict(
         dict(name="intersect_touching_reported_empty", item="intersect", find="sv_lt(rhs.upper, lhs.lower)", replace="sv_le(rhs.upper, lhs.lower)"),
         dict(name="union_takes_larger_lower", item="union", find="sv_le(lhs.lower, rhs.lower)", replace="sv_le(rhs.lower, lhs.lower)"),
         dict(name="max_of_bounds_prefers_null", item="max_of_bounds", find="if !first.is_null() && (second.is_null() ||", replace="if first.is_null() || (second.is_null() ||"),
+        dict(name="propagate_strictness_inverted_on_left_lower", item="satisfy_greater", find="if strict {\n            next_value(right.lower)", replace="if !strict {\n            next_value(right.lower)"),
+        dict(name="propagate_right_upper_two_steps", item="satisfy_greater", find="prev_value(left.upper)", replace="prev_value(prev_value(left.upper))"),
+        dict(name="propagate_touching_is_infeasible_when_non_strict", item="satisfy_greater", find="if !strict && left.upper == right.lower {", replace="if strict && left.upper == right.lower {"),
+        dict(name="propagate_new_left_lower_from_right_upper", item="satisfy_greater", find="        } else {\n            right.lower\n        }", replace="        } else {\n            right.upper\n        }"),
         dict(name="is_true_ignores_unknown", item="is_true", find="(true, false, false) => Ok(Self::TRUE),", replace="(true, false, _) => Ok(Self::TRUE),"),
         dict(name="is_unknown_inverted", item="is_unknown", find="(_, _, false) => Ok(Self::FALSE),", replace="(_, _, false) => Ok(Self::TRUE),"),
         dict(name="maybe_null_reported_not_null", item="is_true_false_unknown", find="?,\n                true,\n            ),", replace="?,\n                false,\n            ),"),
     ],
 )]
 TRUSTED = ["Kani 0.68 / CBMC 6.11 (IEEE-754 comparison semantics of CBMC's float theory)",
-           "three_valued_logic: Verus+Z3; three-variant type model of DataType / ScalarValue (Boolean, Int64, Other), ScalarValue PartialOrd on non-NULL Int64 values behind assumed contracts sv_le / sv_lt (R13), re-attached derives (R16), Borrow<Self> parameters taken as &Self and reference patterns matched by value on the Copy model (R3), ASSUMED contract of Interval::contains_value for boolean values (prelude_logic.rs)"]
+           "three_valued_logic: Verus+Z3; three-variant type model of DataType / ScalarValue (Boolean, Int64, Other), ScalarValue PartialOrd on Int64 values (Option ordering) behind assumed contracts sv_le / sv_lt (R13), next_value / prev_value / Interval::new for Int64 behind assumed contracts read off the macro-generated code, re-attached derives (R16), Borrow<Self> parameters taken as &Self and reference patterns matched by value on the Copy model (R3), ASSUMED contract of Interval::contains_value for boolean values (prelude_logic.rs)"]
 ASSUMPTIONS = ["only the bit-level successor/predecessor is within reach; interval add/sub/mul/div, cp_solver and everything through ScalarValue/Arrow kernels and the fesetround FFI are not verified"]
 NOT_COVERED = ["numeric Interval::{add,sub,mul,div,equal,...}, intervals of other data types than Int64 (the code is type-generic over ScalarValue; floats have NaN/rounding), operands of different data types (casts)", "cp_solver propagation", "alter_fp_rounding_mode (FFI fesetround)", "integer increment/decrement through ScalarValue"]
 EXPLANATION = "A successor that skipped a representable value would let a strict bound x > c remove a feasible value during constraint propagation; the harnesses prove, for every bit pattern, that no value is skipped."
